@@ -325,8 +325,26 @@ def oracle_grid(case, ctx):
     return discs
 
 
+def enum_every_kind(tier):
+    """Every runnable panel transformer / classifier / regressor x container x row-label variant
+    x {fresh, refitted} on fixed panels (the discrete part of the domain, exhaustively)."""
+    import itertools
+
+    base = {"seed": 4321, "n_train": 8, "n_apply": 5, "c": 2, "t": 20, "dup": True, "copy_mask": [True, False, False], "label_kind": "str",
+            "perm": [3, 0, 4, 1, 2, 5], "single": 2, "subset": [4, 1], "unequal": None, "int_panel": False}
+    kinds = [("transformer", k) for k in panelpool.PANEL_TRANSFORMERS if k != "plateau"] + [("estimator", k) for k in panelpool.CLASSIFIERS + ("tsfr",)]
+    for (fam, k), cont, labels, prefit in itertools.product(kinds, ["nested", "numpy3d"], [None, "shuffled"], [False, True]):
+        spec = {"kind": k, "random_state": 3, "n_columns": 2, "num_intervals": 3, "n_intervals": 2, "intervals": 3, "window_length": 4,
+                "length": 9, "num_kernels": 6}
+        if k == "pad":
+            spec["pad_length"] = 40
+        yield dict(base, family=fam, spec=spec, fit_container="nested" if labels else cont, apply_container=cont,
+                   keep_labels=labels is not None, fit_labels=labels, prefit=prefit)
+
+
 def subchecks():
     return [
+        SubCheck("every_kind", oracle, enumerate_cases=enum_every_kind, shards_quick=16, shards_thorough=16, exhaustive=True),
         SubCheck("length_parameter_grid", oracle_grid, enumerate_cases=enum_length_parameter_grid, shards_quick=8, shards_thorough=16, exhaustive=True),
         SubCheck("transformers", oracle, cases("transformer"), quick=600, thorough=5000, shards_quick=6, shards_thorough=16),
         SubCheck("classifiers_regressor", oracle, cases("estimator"), quick=240, thorough=4000, shards_quick=10, shards_thorough=16),
